@@ -254,7 +254,7 @@ Next ==
          \* fix_objective_as_constraint raises when the model has no optimum: then nothing may have changed
          res == IF op.a = "FixObjective" /\ ev.raises # "none" /\ res0.raises = "none"
                 THEN [res0 EXCEPT !.st = st, !.raises = ev.raises] ELSE res0
-         E == res.st
+         E0 == res.st
          \* out-of-scope argument combinations are not judged; whether a detached reaction object exists is
          \* known to the driver only
          judged == res.raises # "skip" /\ ~(op.a \in {"DetachedSetBounds", "ReAddDetached", "DetachedRename"} /\ ev.raises = "skip")
@@ -263,12 +263,12 @@ Next ==
          unexpectedRaise == judged /\ op.a \notin {"Analyze", "Helper"} /\ ev.raises # res.raises
          compareState == judged /\ ~unexpectedRaise /\ (res.raises = "none" \/ res.atomic) /\ ev.raises # "skip"
          diffs == IF compareState
-                  THEN UNION {SlotTag(s, SlotDiff(ev.obs[s], E.m[s], Len(E.ctx[s]), E.helper[s])) : s \in Slots}
+                  THEN UNION {SlotTag(s, SlotDiff(ev.obs[s], E0.m[s], Len(E0.ctx[s]), E0.helper[s])) : s \in Slots}
                        \cup (IF res.raises = "none" /\ RetDiffers(ev, ExpRet(op, st, res)) THEN {"ret"} ELSE {})
                        \cup (IF res.raises = "none" /\ ArithDiffers(ev, op, st) THEN {"arith"} ELSE {})
                        \cup (IF res.raises = "none" /\ QueryDiffers(ev, op, st) THEN {"query"} ELSE {})
                   ELSE IF unexpectedRaise THEN {"raises"} ELSE {}
-         nowBad == UNION {SlotTag(s, InvNames(ev.obs[s], E.helper[s])) : s \in Slots}
+         nowBad == UNION {SlotTag(s, InvNames(ev.obs[s], E0.helper[s])) : s \in Slots}
          os == IF "s" \in DOMAIN op THEN op.s ELSE 1
          hookBad == IF ev.hooks_on /\ op.a # "Copy" /\ op.a # "NewModel"
                     THEN SlotTag(os, HookFails(op, ev.hooks, mgr[os])) ELSE {}
@@ -291,6 +291,13 @@ Next ==
                          ELSE {} : s \in Slots}
          newBad == (nowBad \ bad) \cup hookBad \cup digBad \cup lpBad
          \* the state to continue from: what the implementation really is (trees carried from exp)
+         \* an operation that was to put a NEW model into slot op.t raised unexpectedly (reported above): the driver
+         \* still holds the old model of that slot -- continue from it
+         failedNew == unexpectedRaise /\ op.a \in {"Copy", "MergeNew", "Prune"}
+         E == IF failedNew
+              THEN [E0 EXCEPT !.m[op.t] = st.m[op.t], !.ctx[op.t] = st.ctx[op.t], !.helper[op.t] = st.helper[op.t],
+                              !.sw[op.t] = st.sw[op.t], !.taint[op.t] = st.taint[op.t], !.det[op.t] = st.det[op.t]]
+              ELSE E0
          N == [m |-> [s \in Slots |-> ObsContent(ev.obs[s], E.m[s])],
                ctx |-> [s \in Slots |-> IF ev.obs[s].present /\ ev.obs[s].ctx = Len(E.ctx[s]) THEN E.ctx[s]
                                         ELSE IF ev.obs[s].present /\ ev.obs[s].ctx < Len(E.ctx[s])
@@ -304,10 +311,10 @@ Next ==
                           inexact |-> (IF ev.obs[1].present THEN ev.obs[1].inexact ELSE <<>>)
                                        \o (IF ev.obs[2].present THEN ev.obs[2].inexact ELSE <<>>)]))
      /\ bad' = nowBad
-     /\ mgr' = [s \in Slots |-> IF op.a \in {"Copy", "MergeNew", "Prune"} /\ s = op.t THEN <<>>
+     /\ mgr' = [s \in Slots |-> IF op.a \in {"Copy", "MergeNew", "Prune"} /\ s = op.t /\ ~failedNew THEN <<>>
                                  ELSE IF op.a = "NewModel" /\ s = os THEN <<>>
                                  ELSE IF s = os THEN MgrNext(op, ev.hooks, mgr[s], ev.raises) ELSE mgr[s]]
-     /\ dig' = [s \in Slots |-> IF op.a \in {"Copy", "MergeNew", "Prune"} /\ s = op.t THEN <<>>
+     /\ dig' = [s \in Slots |-> IF op.a \in {"Copy", "MergeNew", "Prune"} /\ s = op.t /\ ~failedNew THEN <<>>
                                  ELSE IF op.a \in {"NewModel", "LoadDoc"} /\ s = os THEN <<>>
                                  ELSE IF s = os /\ op.a = "Enter" /\ ev.raises = "none" /\ ev.obs[s].present
                                       THEN Append(dig[s], ev.obs[s].lp.dig)
